@@ -50,6 +50,8 @@ TABLE = [
     ("CooperativeGP builds its default representations", "C01", "CooperativeGP(g1, g2, f) with the documented default random=None built its default representations around MaxDepthDecider(None, ..): the first creation died with AttributeError (a foreign exception)"),
     ("return a best individual for multi-objective problems instead of None", "C12", "RandomSearch, HC and OnePlusOne returned None for a multi-objective problem (the multi-objective tracker had no get_best_individual)"),
     ("writes the normalised weight back to abstract layers", "C19", "a nested abstract class that is not listed among the considered subtypes never got its normalised weight written back: its rule did not sum to one and the weights of its siblings drifted at every re-extraction (0.5, 0.33, ...)"),
+    ("restarts its expanding phase for every tree", "C07", "with a concrete start symbol the PI-grow decider never re-entered its expanding phase after its first tree (its reset only fired for a decision taken at the root): the state left on a decider object shared with a GE / SGE representation changed what the next mapping of the same genotype returned"),
+    ("never picks an alternative that derives nothing", "C01", "ProgressivelyTerminalDecider picked an abstract class without productions when it was listed first among the alternatives (negative heuristic weights made choice_weighted fall through to the first option) and creation returned an instance of the abstract class itself"),
 ]
 
 log = subprocess.check_output(["git", "-C", "/repo", "log", "--format=%h %s"]).decode().splitlines()
